@@ -14,6 +14,8 @@ def build(rec):
         if p not in ids:
             f = fm.get(p, {"k": "absent"})
             k = "bad" if (p in rec.get("vanish", []) or f["k"] in ("absent", "dangling")) else f["k"]
+            if k in ("fifo", "dev", "ldir"):       # neither regular nor directory: skipped by a worker like a directory
+                k = "dir"
             ids[p] = nxt[k]
             nxt[k] += 1
         return ids[p]
